@@ -73,3 +73,45 @@ def np_moment(a, order, axis=None, keepdims=False):
     a = np.asarray(a, dtype="f8")
     mu = a.mean(axis=axis, keepdims=True)
     return ((a - mu) ** order).mean(axis=axis, keepdims=keepdims)
+
+
+def ov_sumd(b, d=1, axis=0):
+    """Centered window sum of half-width d along ``axis`` on the interior of
+    a block; positions closer than d to the block edge keep their value (they
+    are the halo that map_overlap trims, or the array edge under 'none')."""
+    b = np.asarray(b)
+    out = b.copy()
+    n = b.shape[axis]
+    if d == 0 or n <= 2 * d:
+        return out
+    acc = np.zeros_like(np.take(b, range(d, n - d), axis=axis))
+    for k in range(-d, d + 1):
+        acc = acc + np.take(b, range(d + k, n - d + k), axis=axis)
+    idx = [slice(None)] * b.ndim
+    idx[axis] = slice(d, n - d)
+    out[tuple(idx)] = acc
+    return out
+
+
+def np_ov_sumd(a, d, mode, axis=0):
+    """Whole-array reference for map_overlap(ov_sumd, depth={axis: d},
+    boundary=mode): pad per boundary kind, apply, trim."""
+    a = np.asarray(a)
+    if d == 0:
+        return a.copy()
+    if mode == "none":
+        return ov_sumd(a, d, axis)
+    padw = [(0, 0)] * a.ndim
+    padw[axis] = (d, d)
+    if mode == "reflect":
+        p = np.pad(a, padw, mode="symmetric")
+    elif mode == "periodic":
+        p = np.pad(a, padw, mode="wrap")
+    elif mode == "nearest":
+        p = np.pad(a, padw, mode="edge")
+    else:
+        p = np.pad(a, padw, mode="constant", constant_values=mode)
+    r = ov_sumd(p, d, axis)
+    idx = [slice(None)] * a.ndim
+    idx[axis] = slice(d, d + a.shape[axis])
+    return r[tuple(idx)]
